@@ -138,6 +138,19 @@ CLAIMED: dict[str, tuple[str, str, str, str]] = {
         TB + "Partial: allows-congruence through VersionUnion's excludes_single_version shortcut and coherence of every parsed marker are stated, checked per object at run time; text round trips taken from C03/C15 as hypotheses. Two VCS-reference classes are known findings (by-design prefix matching).",
         "DESIGN.md §4 C18",
     ),
+    "C02": (
+        "Lean 4 proof by composition (C07, C11, C13 facts as named hypotheses) over a model of Factory.create_dependency / Metadata.from_package / to_pep_508 / format_python_constraint + differential correspondence of the real Factory->Metadata pipeline + reference oracle on candidates x environments",
+        "Machine-checked: the marker of the object built from a legacy table entry holds in E exactly when the declared markers, python range "
+        "and platform conditions hold (by composition of C11's create_nested_marker exactness and C07's intersect soundness, relative to their "
+        "leaf-level hypotheses); Requires-Dist line shape; no non-optional dependency with a satisfiable marker is dropped; an empty marker "
+        "never yields an unconditional line (regression of fix 3213fc9); every line for a conditional dependency carries its condition; "
+        "Provides-Extra is exactly the declared keys, canonicalised once each; Requires-Python structure. Every run generates projects in the "
+        "legacy table form, runs the real Factory -> Metadata.from_package pipeline, compares selection, Requires-Dist text, marker tree, "
+        "truth vectors, Requires-Python and Provides-Extra with the model, and lets the reference (packaging) evaluate every Requires-Dist "
+        "line on candidate versions x environments x extras sets and Requires-Python on the interpreter series.",
+        TB + "Partial: `requiresDist_faithful_partial` covers non-optional declarations with C13's print/parse fact and C07/C11 leaf facts as named hypotheses; version-specifier equivalence is C15's; set-level faithfulness of Requires-Python is a stated def checked by the oracle. Known finding single-version-precision-lt-3 (shared with C11).",
+        "DESIGN.md §4 C02",
+    ),
     "C03": (
         "Lean 4 theorems about the version-key model + differential correspondence (model vs poetry-core vs packaging)",
         "Machine-checked proof (Lean 4 kernel) that the model's comparison key orders versions exactly like the PEP 440 "
